@@ -182,6 +182,40 @@ func specSSH() []string {
 	}
 }
 
+// The bodies of the three helper routines (what is handed to addHelper; the wrapper lines -- comment,
+// "name() {" and "}" -- are addHelper's own contract).
+func specSAHBody() []string {
+	return []string{
+		"local _i=${2}",
+		"local _l=$(eval \"echo \\${#${1}[@]}\")",
+		"for ((_c=${_l};_c<${_i};_c++)); do",
+		"eval \"${1}[${_c}]=\\\"${4}\\\"\"",
+		"done",
+		"eval \"${1}[${_i}]=\\\"${3}\\\"\"",
+	}
+}
+
+func specSCHBody() []string {
+	return []string{
+		"local _i=0",
+		"local _l=$(eval \"echo \\${#${2}[@]}\")",
+		"local _n=$(eval \"echo \\${${1}}\")",
+		"while [ ${_i} -lt ${_l} ]; do",
+		"local _v=$(eval \"echo \\${${2}[${_i}]}\")",
+		"eval \"${_n}[${_i}]=\\\"${_v}\\\"\"",
+		"_i=$((${_i}+1))",
+		"done",
+	}
+}
+
+func specSSHBody() []string {
+	return []string{
+		"_ls=$((${2}))",
+		"_ll=$(((${3}-${2})+1))",
+		"_ret=\"${1:${_ls}:${_ll}}\"",
+	}
+}
+
 // specHelpers: the helper routines a script contains: each exactly when it is used.
 func specHelpers(sah bool, sch bool, ssh bool) []string {
 	out := []string{}
@@ -234,8 +268,21 @@ func specIsHelperName(name string) bool {
 //@   ensures[C16,C18] shebang: appended(c.startCode, old(c.startCode), "#!" + c.interpreter) && result == nil
 //@   ensures[C16] frame: sameExcept(c, old(c), "startCode")
 //
+// addHelper wraps a routine body: a comment line, "name() {", the body, "}" -- appended to the start code.
+//@ func (*converter).addHelper
+//@   flag modular: true
+//@   loop @"range code" invariant[C16] body-so-far: len(c.startCode) == len(old(c.startCode)) + 3 + rangeindex && samePrefix(old(c.startCode), c.startCode) && c.startCode[len(old(c.startCode))] == "# global " + helperType + " helper" && c.startCode[len(old(c.startCode)) + 1] == functionName + "() {" && forall(k, 0, rangeindex + 1, c.startCode[len(old(c.startCode)) + 2 + k] == code[k]) && sameExcept(c, old(c), "startCode")
+//@   ensures[C03,C16] wrapped-body: len(c.startCode) == len(old(c.startCode)) + 3 + len(code) && samePrefix(old(c.startCode), c.startCode) && c.startCode[len(old(c.startCode))] == "# global " + helperType + " helper" && c.startCode[len(old(c.startCode)) + 1] == functionName + "() {" && forall(k, 0, len(code), c.startCode[len(old(c.startCode)) + 2 + k] == code[k]) && c.startCode[len(old(c.startCode)) + 2 + len(code)] == "}"
+//@   ensures[C16] frame: sameExcept(c, old(c), "startCode")
+//
+//@ define helperEmitted(d, l, b): exists(k, 0, calls(addHelper), arg(addHelper, k, 1) == d && arg(addHelper, k, 2) == l && seqEq(arg(addHelper, k, 3), b))
+//@ define helperAbsent(l): forall(k, 0, calls(addHelper), arg(addHelper, k, 2) != l)
+//
 //@ func (*converter).ProgramEnd
-//@   ensures[C03,C16,C10] helpers-iff-used: catEq(c.startCode, old(c.startCode), specHelpers(old(c.sliceAssignmentHelperRequired), old(c.sliceCopyHelperRequired), old(c.stringSubscriptHelperRequired)))
+//@   ensures[C03,C16,C10] slice-assignment-helper-iff-used: (old(c.sliceAssignmentHelperRequired) ==> helperEmitted("slice assignment", "_sah", specSAHBody())) && (!old(c.sliceAssignmentHelperRequired) ==> helperAbsent("_sah"))
+//@   ensures[C03,C16,C10] slice-copy-helper-iff-used: (old(c.sliceCopyHelperRequired) ==> helperEmitted("slice copy", "_sch", specSCHBody())) && (!old(c.sliceCopyHelperRequired) ==> helperAbsent("_sch"))
+//@   ensures[C03,C16,C10] substring-helper-iff-used: (old(c.stringSubscriptHelperRequired) ==> helperEmitted("substring", "_ssh", specSSHBody())) && (!old(c.stringSubscriptHelperRequired) ==> helperAbsent("_ssh"))
+//@   ensures[C16] no-helper-twice-and-none-else: calls(addHelper) <= 3 && forall(k, 0, calls(addHelper), forall(j, k + 1, calls(addHelper), arg(addHelper, k, 2) != arg(addHelper, j, 2))) && forall(k, 0, calls(addHelper), arg(addHelper, k, 2) == "_sah" || arg(addHelper, k, 2) == "_sch" || arg(addHelper, k, 2) == "_ssh")
 //@   ensures[C16] code-untouched: c.code == old(c.code) && result == nil
 //
 //@ func (*converter).VarDefinition
@@ -302,8 +349,8 @@ func specIsHelperName(name string) bool {
 //
 //@ func (*converter).ForStart
 //@   requires[C01] open-flags-allocated: forall(k, 0, len(c.fors), c.fors[k] < c.forCounter)
-//@   ensures[C01,C10,C04] fresh-flag: appended(c.fors, old(c.fors), old(c.forCounter)) && c.forCounter == old(c.forCounter) + 1
-//@   ensures[C01,C04] flag-not-shared-with-open-loop: forall(k, 0, len(old(c.fors)), old(c.fors)[k] != c.fors[len(c.fors) - 1])
+//@   ensures[C01,C10,C04,C02] fresh-flag: appended(c.fors, old(c.fors), old(c.forCounter)) && c.forCounter == old(c.forCounter) + 1
+//@   ensures[C01,C04,C02] flag-not-shared-with-open-loop: forall(k, 0, len(old(c.fors)), old(c.fors)[k] != c.fors[len(c.fors) - 1])
 //@   ensures[C01] invariant-kept: forall(k, 0, len(c.fors), c.fors[k] < c.forCounter)
 //@   ensures[C01,C16] lines: appended(c.code, old(c.code), "_fv" + itoa(old(c.forCounter)) + "=", "while true; do") && result == nil
 //@   ensures[C01] frame: sameExcept(c, old(c), "code", "fors", "forCounter")
@@ -408,7 +455,7 @@ func specIsHelperName(name string) bool {
 //@   ensures[C03] frame: sameExcept(c, old(c), "code", "varCounter")
 //
 //@ func (*converter).SliceLen
-//@   ensures[C03] indirect-length: appended(c.code, old(c.code), specAssign(specName(len(c.funcs) > 0, c.funcCounter, specHelperName(old(c.varCounter)), false), "$(eval \"echo \\${#" + name + "[@]}\")")) && err == nil
+//@   ensures[C03,C16] indirect-length: appended(c.code, old(c.code), specAssign(specName(len(c.funcs) > 0, c.funcCounter, specHelperName(old(c.varCounter)), false), "$(eval \"echo \\${#" + name + "[@]}\")")) && err == nil
 //@   ensures[C03,C10] result-is-the-fresh-helper: result == specRef(specName(len(c.funcs) > 0, c.funcCounter, specHelperName(old(c.varCounter)), false)) && c.varCounter == old(c.varCounter) + 1
 //@   ensures[C03] frame: sameExcept(c, old(c), "code", "varCounter")
 //
@@ -419,7 +466,7 @@ func specIsHelperName(name string) bool {
 //@   ensures[C03] frame: sameExcept(c, old(c), "code", "varCounter", "stringSubscriptHelperRequired")
 //
 //@ func (*converter).StringLen
-//@   ensures[C03] store-then-measure: appended(c.code, old(c.code), specAssign(specName(len(c.funcs) > 0, c.funcCounter, specHelperName(old(c.varCounter)), false), value), specAssign(specName(len(c.funcs) > 0, c.funcCounter, specHelperName(old(c.varCounter)), false), "${#" + specName(len(c.funcs) > 0, c.funcCounter, specHelperName(old(c.varCounter)), false) + "}")) && err == nil
+//@   ensures[C03,C16] store-then-measure: appended(c.code, old(c.code), specAssign(specName(len(c.funcs) > 0, c.funcCounter, specHelperName(old(c.varCounter)), false), value), specAssign(specName(len(c.funcs) > 0, c.funcCounter, specHelperName(old(c.varCounter)), false), "${#" + specName(len(c.funcs) > 0, c.funcCounter, specHelperName(old(c.varCounter)), false) + "}")) && err == nil
 //@   ensures[C03,C10] result-is-the-fresh-helper: result == specRef(specName(len(c.funcs) > 0, c.funcCounter, specHelperName(old(c.varCounter)), false)) && c.varCounter == old(c.varCounter) + 1
 //@   ensures[C03] frame: sameExcept(c, old(c), "code", "varCounter")
 //
